@@ -12,7 +12,7 @@ CLAIMED = {
    note="Trusted: k256 scalar/point arithmetic (both sides), sha2. How the randomised signer uses its draw, and how many bytes anybody draws, is recorded as probes only (the statement does not prescribe it). RFC 6979 equality and the reference half of ECDH are reference-model oracles riding in this world. One algebraic degenerate case is skipped: message scalar 0 with the negated key.",
    technique="deterministic simulation: scripted OS-entropy seam + two-party exchange with mispairing/replay faults, reference-peer oracles"),
  "C09": dict(section="4/C09", scenario="artefact-medium",
-   text="Seeded exploration over 55 public decoding entry points: a producer makes a valid artefact with the real encoder (incl. coinbase-shaped inputs, structurally valid keys with unusable key material, scripts nested to 2*10^5), a medium applies 0-3 faults (truncate, bit flip, byte set, length-field inflation with 39 compact-size/PUSHDATA/CBOR-head patterns at located heads or seeded offsets, CBOR array nesting to 2*10^5, JSON value substitution, text token substitution/insertion, junk, splice, duplication, emptying, random replacement), optionally misdelivers it to another decoder, and the real decoder runs in a worker whose allocator refuses any request lifting live heap above 1024*len+8MiB (and whose largest single request is bounded likewise). Panics are caught with their site; allocator exhaustion, native stack overflow and hangs kill the worker and are attributed to run and decoder by the parent through a shared-memory breadcrumb. Sampling; quick = 300k artefacts.",
+   text="Seeded exploration over 59 public decoding entry points: a producer makes a valid artefact with the real encoder (incl. coinbase-shaped inputs, structurally valid keys with unusable key material, scripts nested to 2*10^5), a medium applies 0-3 faults (truncate, bit flip, byte set, length-field inflation with 39 compact-size/PUSHDATA/CBOR-head patterns at located heads or seeded offsets, CBOR array nesting to 2*10^5, JSON value substitution, text token substitution/insertion, junk, splice, duplication, emptying, random replacement), optionally misdelivers it to another decoder, and the real decoder runs in a worker whose allocator refuses any request lifting live heap above 1024*len+8MiB (and whose largest single request is bounded likewise). Panics are caught with their site; allocator exhaustion, native stack overflow and hangs kill the worker and are attributed to run and decoder by the parent through a shared-memory breadcrumb. Sampling; quick = 300k artefacts.",
    note="alpha calibrated at 4x the largest fault-free peak/len ratio (histogram in evidence on every run); CBOR decoders get beta=320MiB because serde pre-allocates min(declared, 1MiB) per sequence and ciborium recurses <=256 levels (a constant, not a declared length) - the single-request bound still applies. Inputs to base58 decoders are capped at 8KiB (quadratic time; the property does not bound time). Scenario code runs on an explicit 8MiB stack. Known finding: recursive conditional parser overflows the stack at ~29 000 nesting (8 decoder kinds).",
    technique="deterministic simulation: seeded producer/medium/consumer pipeline with storage-fault injection, budgeted allocator and worker-process death attribution"),
  "C11": dict(section="4/C11", scenario="ecies-net",
